@@ -19,8 +19,10 @@ def cname(hid, k, pub):
 PYNAME = {"m1": "m_one", "m2": "m_two"}       # Python names with an inner underscore (they change under naming conversion)
 
 
-def class_src(hid, k, c, h, attrshadow=False) -> str:
+def class_src(hid, k, c, h, attrshadow=False, abstract="") -> str:
     bases = ", ".join(cname(hid, b, h[b - 1]["pub"]) for b in c["bases"])
+    if abstract and c["pub"] and bases:
+        bases = f"ABC, {bases}" if abstract == "first" else f"{bases}, ABC"
     L = [f"class {cname(hid, k, c['pub'])}" + (f"({bases})" if bases else "") + ":"]
     for m in sorted(c["ms"]):
         if attrshadow and c["pub"]:
@@ -49,13 +51,13 @@ def main(v: Verdict) -> None:
             if sc.get("aliased"):
                 inits.append(f"from .{'inhb' if sc['split'] else 'inha'} import {cname(hid, 1, False)} as H{hid}C1Shown")
             for k, c in enumerate(h, 1):
-                src = class_src(hid, k, c, h, sc.get("attrshadow", False))
+                src = class_src(hid, k, c, h, sc.get("attrshadow", False), sc.get("abstract", ""))
                 if sc["split"] and k == 1:
                     b_parts.append(src)
                     imports.append(f"from {pkg}.inhb import {cname(hid, 1, c['pub'])}")
                 else:
                     a_parts.append(src)
-        files = {"__init__.py": "\n".join(inits) + "\n", "inha.py": "\n".join(imports) + "\n\n" + "\n".join(a_parts), "inhb.py": "\n".join(b_parts) or "X = 1\n"}
+        files = {"__init__.py": "\n".join(inits) + "\n", "inha.py": "from abc import ABC\n" + "\n".join(imports) + "\n\n" + "\n".join(a_parts), "inhb.py": "\n".join(b_parts) or "X = 1\n"}
         return write_pkg(files, pkg)
     # hierarchies whose private ancestor is re-exported under an alias go into packages of their own (300 each): the tool's re-export
     # bookkeeping is quadratic in the number of re-exports
@@ -116,6 +118,8 @@ def main(v: Verdict) -> None:
                 scj = {"h": h, "split": sc["split"], "decoy": sc.get("decoy", False), "aliased": sc.get("aliased", False)}
                 if sc.get("attrshadow"):
                     scj["attrshadow"] = True
+                if sc.get("abstract"):
+                    scj["abstract"] = sc["abstract"]
                 obs.append({"id": f"H{hid}C{k}" + (":nc" if nc else ""), "sc": scj, "obs": o})
     bad = judge(v, "C17_Trace", obs)
     by_id = {o["id"]: o for o in obs}
@@ -123,7 +127,7 @@ def main(v: Verdict) -> None:
         o = by_id.get(b.get("subject"))
         if o:
             hid = int(re.match(r"H(\d+)C", o["id"]).group(1))
-            b["python"] = "".join(class_src(hid, k, c, o["sc"]["h"], o["sc"].get("attrshadow", False)) for k, c in enumerate(o["sc"]["h"], 1))
+            b["python"] = "".join(class_src(hid, k, c, o["sc"]["h"], o["sc"].get("attrshadow", False), o["sc"].get("abstract", "")) for k, c in enumerate(o["sc"]["h"], 1))
             b["split"] = o["sc"]["split"]
     v.add_bad(bad)
     v.samples = [{"hierarchy": o["sc"], "observed": o["obs"]} for o in obs[:: max(1, len(obs) // 3)]][:3]
